@@ -40,7 +40,24 @@ def J():
 
 
 ETAS = [0.01, -0.01, 1.0, -1.0, 37.0, -37.0]
+
+
+def _dyadic_boundaries(rng, K, bits=6):
+    """Uneven boundaries k/2^bits (random composition of 2^bits into K positive parts): thicknesses are
+    exact and have tiny odd parts, which keeps the exact rational model arithmetic cheap."""
+    n = 2 ** bits
+    cuts = np.sort(rng.choice(np.arange(1, n), size=K - 1, replace=False)) if K > 1 else np.array([], dtype=int)
+    return (np.concatenate([[0], cuts, [n]]) / n).astype(np.float64)
 SLOP = 8.0     # the cumulative-sum forms add and subtract the local term: allow a few times the dense term bound
+
+
+def _levels(rng, K, r, reps, quick):
+    if K == 1: return [0.0, 1.0]
+    if r == 0 and K == 3: return [0.0, 0.25, 0.75, 1.0]             # the witness levels of the fixed defect
+    if r == reps - 1 and K in (3, 4, 8): return np.linspace(0, 1, K + 1).tolist()
+    if r == 1 and K == 2: return util.uneven_boundaries(rng, K).tolist()       # non-dyadic thickness ratios
+    if quick or r % 2 == 0: return _dyadic_boundaries(rng, K).tolist()
+    return util.uneven_boundaries(rng, K, 4).tolist()
 
 
 # ---------------------------------------------------------------------------
@@ -53,12 +70,7 @@ def generate(ctx):
     reps = 2 if quick else 4
     for K in Ks:
         for r in range(reps):
-            if r == 0 and K == 3:
-                b = [0.0, 0.25, 0.75, 1.0]            # the witness levels of the fixed defect
-            elif r == reps - 1 and K > 1:
-                b = np.linspace(0, 1, K + 1).tolist()
-            else:
-                b = util.uneven_boundaries(rng, K).tolist()
+            b = _levels(rng, K, r, reps, quick)
             if r == 0 and K == 3:
                 tref = [250.0] * K
             elif r % 2 == 0:
@@ -240,7 +252,8 @@ def r_matrix(ctx, a):
         ctx.corr(f'I-GH, I-HG l={l}', np.concatenate([S1[l].ravel(), S2[l].ravel()]), sm,
                  scale=float(max(_absmm(Mx[l:l + 1, :K, K:], Mx[l:l + 1, K:, :K]).max(), 1.0)))
     ctx.table_obligation('H_inv: np.linalg.inv is finite', bool(np.isfinite(Minv).all() and np.isfinite(A).all() and np.isfinite(B).all()))
-    for name, X, Y in (('Minv*M = I (full matrix)', Minv, Mx), ('A*(I-GH) = I', A, S1), ('B*(I-HG) = I', B, S2)):
+    for name, X, Y in (('Minv*M = I (full matrix)', Minv, Mx), ('M*Minv = I (full matrix)', Mx, Minv),
+                       ('A*(I-GH) = I', A, S1), ('B*(I-HG) = I', B, S2)):
         res = np.abs(np.einsum('lij,ljk->lik', X, Y) - np.eye(Y.shape[-1]))
         bound = 2.0 ** -36 * _absmm(X, Y).max(axis=(1, 2), keepdims=True)
         ctx.table_obligation('H_inv: ' + name, bool((res <= bound).all()),
